@@ -6,6 +6,7 @@ package c15
 import (
 	"context"
 	"math/rand"
+	"runtime"
 	"sync"
 	"sync/atomic"
 	"testing"
@@ -22,11 +23,13 @@ type op struct {
 	U  bool   `json:"u"`
 	B  bool   `json:"b"`
 	C  int    `json:"c"`
+	G  bool   `json:"g"` // glued to the previous operation: same goroutine, no quiescence in between (a burst)
 }
 
 type scenario struct {
-	Cap int  `json:"cap"`
-	Ops []op `json:"ops"`
+	Cap  int  `json:"cap"`
+	Fill int  `json:"fill"` // normal items pushed (non-blocking) before the operations
+	Ops  []op `json:"ops"`
 }
 
 // run is one scenario's bookkeeping: which calls are outstanding, names of items.
@@ -166,34 +169,105 @@ func TestC15Seq(t *testing.T) {
 	scns := vh.ReadScenarios[scenario](t, "VERIF_IN")
 	out := vh.NewOut(t, "VERIF_OUT")
 	for _, s := range scns {
-		synctest.Test(t, func(t *testing.T) {
-			r := newRun(out, s.Cap)
-			closed := false
-			for _, o := range s.Ops {
-				switch o.Op {
-				case "push":
-					go r.push(r.id(), o.U, o.B)
-				case "pop":
-					go r.pop(r.id(), o.C)
-				case "cancel":
-					r.cancel(o.C)
-				case "close":
-					r.close(r.id())
-					closed = true
-				}
-				synctest.Wait()
-				out.Emit(vh.M{"e": "quiet", "blocked": r.blocked()})
-			}
-			if !closed {
-				r.close(r.id())
-				synctest.Wait()
-				out.Emit(vh.M{"e": "quiet", "blocked": r.blocked()})
-			}
-			for _, f := range r.cancs {
-				f()
-			}
-		})
+		replay(t, out, s)
 	}
+}
+
+// TestC15Burst replays TLC-generated sequences in which some operations are glued into bursts: the operations of
+// a burst run back to back in ONE goroutine. The test runs on a single P: a goroutine then runs until it blocks, and
+// Signal / Broadcast only mark waiters runnable, so none of the waiters woken by an operation of the burst has run
+// when the next operation executes (two pops before the pusher woken by the first one re-acquires the lock, a push
+// that takes the slot freed for a woken pusher, ...). One quiet line follows each burst. Should the runtime preempt
+// the burst all the same, the history is still a correct history (TLC linearises whatever happened); only the
+// coverage obligation counts bursts that really ran back to back.
+func TestC15Burst(t *testing.T) {
+	scns := vh.ReadScenarios[scenario](t, "VERIF_IN")
+	out := vh.NewOut(t, "VERIF_OUT")
+	defer runtime.GOMAXPROCS(runtime.GOMAXPROCS(1))
+	for _, s := range scns {
+		replay(t, out, s)
+	}
+}
+
+// one performs one operation synchronously in the calling goroutine.
+func (r *run) one(o op) {
+	switch o.Op {
+	case "push":
+		r.push(r.id(), o.U, o.B)
+	case "pop":
+		r.pop(r.id(), o.C)
+	case "cancel":
+		r.cancel(o.C)
+	case "close":
+		r.close(r.id())
+	}
+}
+
+// quiesce brings the bubble to quiescence and logs who is still blocked.
+func (r *run) quiesce() {
+	synctest.Wait()
+	r.out.Emit(vh.M{"e": "quiet", "blocked": r.blocked()})
+}
+
+// finish closes the queue if the scenario did not, and ends the scenario. A call that stays blocked whatever is
+// tried would keep the bubble from ever ending (synctest panics when its root returns with blocked goroutines): the
+// quiet line that shows it is already written, so flush the trace and stop; the orchestrator judges what was recorded.
+func (r *run) finish(t *testing.T, closed bool) {
+	if !closed {
+		r.close(r.id())
+		r.quiesce()
+	}
+	if len(r.blocked()) > 0 {
+		// (the quiet line that shows it is written.) A wake-up that was lost is made up for by any later broadcast:
+		// cancel every context and close once more, so that the bubble can end and the next scenarios still run.
+		for c := range r.cancs {
+			r.cancel(c)
+		}
+		r.close(r.id())
+		synctest.Wait()
+	}
+	for _, f := range r.cancs {
+		f()
+	}
+	if b := r.blocked(); len(b) > 0 {
+		r.out.Close()
+		t.Fatalf("calls %v still blocked after Close: trace flushed, stopping", b)
+	}
+}
+
+func replay(t *testing.T, out *vh.Out, s scenario) {
+	synctest.Test(t, func(t *testing.T) {
+		r := newRun(out, s.Cap)
+		for i := 0; i < s.Fill; i++ {
+			r.push(r.id(), false, false)
+		}
+		closed := false
+		for i := 0; i < len(s.Ops); {
+			j := i + 1
+			for j < len(s.Ops) && s.Ops[j].G {
+				j++
+			}
+			group := s.Ops[i:j]
+			i = j
+			for _, o := range group {
+				closed = closed || o.Op == "close"
+			}
+			switch {
+			case len(group) > 1:
+				go func() {
+					for _, o := range group {
+						r.one(o)
+					}
+				}()
+			case group[0].Op == "push" || group[0].Op == "pop":
+				go r.one(group[0])
+			default:
+				r.one(group[0])
+			}
+			r.quiesce()
+		}
+		r.finish(t, closed)
+	})
 }
 
 // waitReturned waits in real time until the given call has returned.
@@ -223,6 +297,19 @@ func TestC15Forced(t *testing.T) {
 		reps = 200
 	}
 	tails := []string{"none", "push", "pop2-push", "close", "push-before-release", "cancel-other"}
+	// real-time scenarios in which every call has to return: {hook, steps started while the call is parked}
+	rt := [][]string{
+		{hookPop, "close"},          // Close between Pop's closed check and its wait (NO cancel)
+		{hookPop, "close", "push"},  //
+		{hookPush, "close"},         // Close between a blocking push's closed check and its wait
+		{hookPush, "pop"},           // a Pop makes room meanwhile: its Signal must not be lost
+		{hookPush, "pop", "close"},  // both, in either order of arrival at the mutex
+		{hookPush, "close", "pop"},
+	}
+	havePush := hookFires(t, hookPush)
+	if !havePush {
+		out.Emit(vh.M{"e": "note", "k": "nohook", "hook": hookPush})
+	}
 	stuck := 0
 	for rep := 0; rep < reps && stuck < 3; rep++ {
 		for _, tail := range tails {
@@ -232,7 +319,56 @@ func TestC15Forced(t *testing.T) {
 				}
 			}
 		}
+		for _, sc := range rt {
+			for capacity := 1; capacity <= 2 && stuck < 3; capacity++ {
+				if sc[0] == hookPush && !havePush {
+					continue
+				}
+				if !forcedRT(out, capacity, sc[0], sc[1:]) {
+					stuck++
+				}
+			}
+		}
 	}
+}
+
+const (
+	hookPop  = "rpcqueue.pop.beforeWait"  // Pop: between the ctx / closed checks and dataAvailable.Wait(), mutex held
+	hookPush = "rpcqueue.push.beforeWait" // blocking push on a full queue: right before spaceAvailable.Wait(), mutex held
+)
+
+// hookFires tells whether the tree under test has the named schedule point (a tree older than the hook has not: the
+// scenarios that need it are then skipped with a note, and the orchestrator reports the unmet coverage obligation).
+func hookFires(t *testing.T, name string) bool {
+	var fired atomic.Bool
+	hook := func(n string) {
+		if n == name {
+			fired.Store(true)
+		}
+	}
+	pubsub.VerifSchedPointFn.Store(&hook)
+	defer pubsub.VerifSchedPointFn.Store(nil)
+	synctest.Test(t, func(t *testing.T) {
+		// nothing here blocks the root goroutine of the bubble, whatever the tree under test does
+		q := pubsub.VerifNewRPCQueue(1)
+		q.Push(&pubsub.RPC{}, false)
+		ctx, cancel := context.WithCancel(context.Background())
+		go func() {
+			defer func() { recover() }()
+			q.Push(&pubsub.RPC{}, true) // full: takes the waiting path
+		}()
+		synctest.Wait()
+		go q.Pop(ctx)
+		synctest.Wait()
+		go q.Pop(ctx)
+		synctest.Wait()
+		go q.Pop(ctx) // empty by now: takes the waiting path
+		synctest.Wait()
+		q.Close()
+		cancel()
+		synctest.Wait()
+	})
+	return fired.Load()
 }
 
 // stuckAfter is how long (real time) a call that should return is waited for before it is reported as
@@ -313,6 +449,197 @@ func forcedOne(t *testing.T, out *vh.Out, capacity int, tail string) (popReturne
 		f()
 	}
 	return popReturned
+}
+
+// forcedRT (real time, all Ps): fills the queue when the parked call is a blocking push, parks the call at its hook
+// (it holds the queue mutex there), starts the given steps each in its own goroutine (in the unchanged code they
+// block on the mutex; a Close that no longer takes the lock completes at once and its broadcast finds nobody),
+// gives them real time, releases the hook and waits until every call has returned (all of them have to, in every
+// order the mutex may be handed over). Reports whether they did.
+func forcedRT(out *vh.Out, capacity int, hookName string, during []string) (allReturned bool) {
+	r := newRun(out, capacity)
+	parked := make(chan struct{})
+	release := make(chan struct{})
+	var once atomic.Bool
+	hook := func(name string) {
+		if name == hookName && once.CompareAndSwap(false, true) {
+			close(parked)
+			<-release
+		}
+	}
+	pubsub.VerifSchedPointFn.Store(&hook)
+	defer pubsub.VerifSchedPointFn.Store(nil)
+
+	var ids []int
+	start := func(f func(id int)) {
+		id := r.id()
+		ids = append(ids, id)
+		go f(id)
+	}
+	if hookName == hookPush {
+		for i := 0; i < capacity; i++ {
+			r.push(r.id(), false, false)
+		}
+		start(func(id int) { r.push(id, false, true) })
+	} else {
+		start(func(id int) { r.pop(id, 1) })
+	}
+	<-parked
+	out.Emit(vh.M{"e": "note", "k": "parked", "hook": hookName, "rt": true})
+	for _, st := range during {
+		switch st {
+		case "close":
+			start(func(id int) { r.close(id) })
+		case "pop":
+			start(func(id int) { r.pop(id, 2) })
+		case "push":
+			start(func(id int) { r.push(id, false, false) })
+		}
+		// real time for the step to reach the mutex (or, lock-free, to run to its end) before the next one starts
+		time.Sleep(time.Millisecond)
+	}
+	time.Sleep(time.Millisecond)
+	out.Emit(vh.M{"e": "note", "k": "release"})
+	close(release)
+	allReturned = true
+	for _, id := range ids {
+		if !r.waitReturned(id, stuckAfter) {
+			allReturned = false
+		}
+	}
+	out.Emit(vh.M{"e": "quiet", "blocked": r.blocked()})
+	// cleanup: Close releases everything
+	r.close(r.id())
+	for _, id := range ids {
+		r.waitReturned(id, 2*stuckAfter)
+	}
+	out.Emit(vh.M{"e": "quiet", "blocked": r.blocked()})
+	for _, f := range r.cancs {
+		f()
+	}
+	return allReturned
+}
+
+// parkScn is one deterministic forced scenario of TestC15Park.
+type parkScn struct {
+	hook   string   // which call is parked: a Pop on an empty queue (hookPop) or a blocking push on a full one (hookPush)
+	cap    int
+	during []string // steps started while the call is parked, in this order
+}
+
+// TestC15Park is the deterministic form of the forced interleavings, for both schedule points and every ordered
+// choice of one or two steps performed while the call is parked. It runs inside a synctest bubble on ONE P: the steps
+// are started one at a time and given the processor (Gosched) until they block on the queue mutex, which the parked
+// call holds - or, when a step does not take the mutex (cancel; a Close or a broadcast that lost its lock), until it
+// has run to its end. synctest.Wait is never called while the call is parked (a goroutine blocked on a mutex is not
+// durably blocked); after the release the bubble is brought to quiescence, which gives the exact set of calls that
+// are still blocked without any real-time waiting. A fixed tail (push, pop, close) follows, one step at a time.
+func TestC15Park(t *testing.T) {
+	out := vh.NewOut(t, "VERIF_OUT")
+	defer runtime.GOMAXPROCS(runtime.GOMAXPROCS(1))
+	reps := 2
+	if vh.Thorough() {
+		reps = 12
+	}
+	vocab := map[string][]string{
+		hookPop:  {"close", "cancel1", "cancel2", "push", "upush", "pop2", "pop1"},
+		hookPush: {"close", "pop1", "pop2", "pushB", "upushB", "push", "cancel1"},
+	}
+	var scns []parkScn
+	for _, h := range []string{hookPop, hookPush} {
+		if !hookFires(t, h) {
+			out.Emit(vh.M{"e": "note", "k": "nohook", "hook": h})
+			continue
+		}
+		v := vocab[h]
+		for capacity := 1; capacity <= 2; capacity++ {
+			for _, a := range v {
+				scns = append(scns, parkScn{h, capacity, []string{a}})
+				for _, b := range v {
+					if b != a || a == "pop1" || a == "pop2" || a == "pushB" {
+						scns = append(scns, parkScn{h, capacity, []string{a, b}})
+					}
+				}
+			}
+		}
+		// three steps: the combinations around Close with a second waiter of each kind
+		for _, d := range [][]string{{"pop2", "close", "push"}, {"push", "pop2", "close"}, {"cancel1", "pop2", "close"},
+			{"pop1", "pushB", "close"}, {"pushB", "pop1", "pop2"}, {"pop1", "push", "pushB"}, {"close", "pop1", "pushB"}} {
+			scns = append(scns, parkScn{h, 2, d})
+		}
+	}
+	for rep := 0; rep < reps; rep++ {
+		for _, sc := range scns {
+			parkOne(t, out, sc)
+		}
+	}
+}
+
+func parkOne(t *testing.T, out *vh.Out, sc parkScn) {
+	synctest.Test(t, func(t *testing.T) {
+		r := newRun(out, sc.cap)
+		release := make(chan struct{})
+		var parked atomic.Bool
+		hook := func(name string) {
+			if name == sc.hook && parked.CompareAndSwap(false, true) {
+				<-release
+			}
+		}
+		pubsub.VerifSchedPointFn.Store(&hook)
+		defer pubsub.VerifSchedPointFn.Store(nil)
+
+		if sc.hook == hookPush {
+			for i := 0; i < sc.cap; i++ {
+				r.push(r.id(), false, false)
+			}
+			go r.push(r.id(), false, true)
+		} else {
+			go r.pop(r.id(), 1)
+		}
+		synctest.Wait() // the call is parked in the hook (durably blocked on a channel of the bubble), mutex held
+		if !parked.Load() {
+			out.Emit(vh.M{"e": "note", "k": "nohook", "hook": sc.hook})
+			r.finish(t, false)
+			return
+		}
+		out.Emit(vh.M{"e": "note", "k": "parked", "hook": sc.hook})
+		closed := false
+		for _, st := range sc.during {
+			o, ok := parkOps[st]
+			if !ok {
+				t.Fatalf("unknown step %q", st)
+			}
+			closed = closed || o.Op == "close"
+			if o.Op == "cancel" {
+				r.one(o) // lock-free; the AfterFunc goroutine it starts goes for the mutex
+			} else {
+				go r.one(o)
+			}
+			for i := 0; i < 20; i++ {
+				runtime.Gosched()
+			}
+		}
+		out.Emit(vh.M{"e": "note", "k": "release"})
+		close(release)
+		r.quiesce()
+		for _, st := range []string{"push", "pop2"} {
+			go r.one(parkOps[st])
+			r.quiesce()
+		}
+		r.finish(t, closed)
+	})
+}
+
+var parkOps = map[string]op{
+	"close":   {Op: "close"},
+	"cancel1": {Op: "cancel", C: 1},
+	"cancel2": {Op: "cancel", C: 2},
+	"pop1":    {Op: "pop", C: 1},
+	"pop2":    {Op: "pop", C: 2},
+	"push":    {Op: "push"},
+	"upush":   {Op: "push", U: true},
+	"pushB":   {Op: "push", B: true},
+	"upushB":  {Op: "push", U: true, B: true},
 }
 
 func tailWait(r *run, popID int) bool {
